@@ -43,10 +43,10 @@ def role(fn):
     return 'other'
 
 
-def run(prog, rep):
+def run(prog, rep, only=None, floor=40):
     sem = Sem(prog)
-    rule = rep.rule('R-KEY', 'per backend field: writer, clearer and reader use the same literal key and store kind; constructors/header write what getters/checkHeader read', floor=40)
-    classes = sorted(set(f.cls for f in prog.funcs.values() if f.cls and f.cls.startswith('nix::hdf5::') and f.cls.endswith('HDF5')))
+    rule = rep.rule('R-KEY', 'per backend field: writer, clearer and reader use the same literal key and store kind; constructors/header write what getters/checkHeader read', floor=floor)
+    classes = sorted(set(f.cls for f in prog.funcs.values() if f.cls and f.cls.startswith('nix::hdf5::') and f.cls.endswith('HDF5') and (only is None or f.cls in only)))
     nfields = 0
     allkeys = set()
     for cls in classes:
@@ -103,8 +103,10 @@ def run(prog, rep):
                 bad = [k for k in ck if k not in wk] + [k for k in wk if k not in ck and k[0] != 'group' and not any(k2[1] == k[1] for k2 in ck)]
                 rule.check(not bad, key + '|write-clear', rep.where(roles['clearer'][0]), key, 'the none_t overload removes %s' % sorted(ck),
                            'setter writes %s but the clearing overload removes %s' % (sorted(wk), sorted(ck)))
-    if nfields < 25:
+    if nfields < (25 if only is None else 3):
         raise AnalysisBroken('R-KEY: only %d backend fields found' % nfields)
+    if only is not None:
+        return rule
     # creating constructors: keys written there are read by a const member of the hierarchy
     readers = {}
     for f in prog.funcs.values():
